@@ -52,7 +52,7 @@ def run(rep, idx, tier):
     rep.require("C20.6", 1)
     from . import glue as _glue
     _glue.argument_agreement(rep, "C20.6", idx)
-    _glue.param_refusals(rep, "C20.4", idx, only=["Signature.__init__"])
+    _glue.param_refusals(rep, "C20.4", idx, only=["Signature.__init__", "Interface.__init__", "Element.__init__", "Source.__init__"])
     P = Pol(idx)
     port_polarity(rep, idx, P)
     drivers(rep, idx, P)
